@@ -37,6 +37,9 @@ fn observe(olk: &mut OnlineKey, olk_pub: &[u8], v: &str, secs: u64, ns: u32) -> 
 pub fn replay(path: &str, out_path: &str) {
     let f = std::fs::File::open(path).expect("open cases");
     let mut out = std::io::BufWriter::new(std::fs::File::create(out_path).expect("create trace"));
+    // the zone the server process happens to run in is not part of the signed time: the whole replay runs in a zone with a
+    // half-hour offset
+    std::env::set_var("TZ", "IST-5:30");
     let mut olk = OnlineKey::new();
     let olk_pub = unhex(&format!("{}", olk));
     let mut n = 0u64;
@@ -57,7 +60,10 @@ pub fn record(seed: u64, tier: &str, out_path: &str) {
     let n = if tier == "thorough" { 100_000 } else { 12_000 };
     let mut olk = OnlineKey::new();
     let mut olk_pub = unhex(&format!("{}", olk));
+    // (the process's time zone rotates: daylight-saving rules, a half-hour offset, far east, UTC, unset)
+    let zones = ["EST5EDT,M3.2.0,M11.1.0", "IST-5:30", "NZST-12NZDT,M9.5.0,M4.1.0/3", "UTC0", ""];
     for k in 0..n {
+        if k % 1000 == 0 { let z = zones[(k / 1000) % zones.len()]; if z.is_empty() { std::env::remove_var("TZ"); } else { std::env::set_var("TZ", z); } }
         if k % 2000 == 1999 { olk = OnlineKey::new(); olk_pub = unhex(&format!("{}", olk)); }
         // from the epoch to beyond year 2200, denser around 32-bit boundaries and now
         let secs = match rng.below(8) { 0 => rng.below(1 << 33), 1 => (1u64 << 32) - 50 + rng.below(100), 2 => (1u64 << 31) - 50 + rng.below(100),
